@@ -130,7 +130,7 @@ func (a *Analysis) Connections() int {
 func (a *Analysis) Ledger() []Finding {
 	var out []Finding
 	r := a.R
-	if !r.Quiescent && !r.Stuck {
+	if !r.Quiescent && !r.Stuck && !r.Livelock {
 		return nil
 	}
 	keys := make([]string, 0, len(a.KeyCount))
@@ -157,6 +157,9 @@ func (a *Analysis) Ledger() []Finding {
 			if r.Stuck {
 				kind = "stalled"
 			}
+			if r.Livelock {
+				kind = "livelock"
+			}
 			where := "post-connect"
 			for _, s := range a.Order {
 				if s.Step.Key() == k {
@@ -175,7 +178,7 @@ func (a *Analysis) Ledger() []Finding {
 			}
 			out = append(out, Finding{fmt.Sprintf("%s:%s:%s", kind, k[:1], where),
 				fmt.Sprintf("request %s was accepted %d time(s) (returned nil) but only %d acknowledgement(s) for it were consumed by the client; %d transmission attempts; run %s (queues at end: tasks=%d retries=%d)",
-					k, want, got, attempts, map[bool]string{true: "quiescent after the sentinel was acknowledged", false: "certified stuck"}[r.Quiescent], r.StatsEnd.QueuedTasks, r.StatsEnd.QueuedRetries)})
+					k, want, got, attempts, map[bool]string{true: "quiescent after the sentinel was acknowledged", false: map[bool]string{true: fmt.Sprintf("live-locked: %d healthy connections after the faults stopped did not get it done", LivelockConns), false: "certified stuck"}[r.Livelock]}[r.Quiescent], r.StatsEnd.QueuedTasks, r.StatsEnd.QueuedRetries)})
 		}
 	}
 	if r.Stuck && len(out) == 0 {
